@@ -244,6 +244,18 @@ func psSignature(text string) ([]byte, error) {
 	return base64.StdEncoding.DecodeString(b64.String())
 }
 
+// decodeText returns the text of a script whatever its encoding (UTF-16-LE with a byte-order mark, or UTF-8)
+func decodeText(b []byte) string {
+	if len(b) >= 2 && b[0] == 0xff && b[1] == 0xfe {
+		u := make([]uint16, 0, len(b)/2)
+		for i := 2; i+1 < len(b); i += 2 {
+			u = append(u, uint16(b[i])|uint16(b[i+1])<<8)
+		}
+		return string(utf16.Decode(u))
+	}
+	return strings.TrimPrefix(string(b), "\xef\xbb\xbf")
+}
+
 func utf16le(s string) []byte {
 	u := utf16.Encode([]rune(s))
 	b := make([]byte, 2*len(u))
@@ -322,7 +334,7 @@ func (rp *Replayer) external(c *Case, ti *TypeInfo, ki *KeyInfo, cur, orig strin
 		}
 		rp.R.Count("ext_pe_reference", 1)
 	case "ps1", "ps1xml", "mof":
-		blob, err := psSignature(string(data))
+		blob, err := psSignature(decodeText(data))
 		if err != nil {
 			ext("ps-block", "%v", err)
 			return
@@ -334,13 +346,23 @@ func (rp *Replayer) external(c *Case, ti *TypeInfo, ki *KeyInfo, cur, orig strin
 		}
 		// the signed text is everything before the end-of-line that precedes the signature block, as UTF-16LE
 		src, _ := os.ReadFile(orig)
-		text := string(src)
+		text := decodeText(src)
 		ok := false
 		for _, cand := range []string{text, strings.TrimSuffix(text, "\n"), strings.TrimSuffix(text, "\r\n")} {
 			w := h.New()
 			w.Write(utf16le(cand))
 			if bytes.Equal(w.Sum(nil), dg) {
 				ok = true
+			}
+			if len(src) >= 2 && src[0] == 0xff && src[1] == 0xfe {
+				// a script that already is UTF-16: whether the byte-order mark belongs to the digested text cannot be
+				// settled without the Windows SIP; either is accepted by this reference
+				w = h.New()
+				w.Write([]byte{0xff, 0xfe})
+				w.Write(utf16le(cand))
+				if bytes.Equal(w.Sum(nil), dg) {
+					ok = true
+				}
 			}
 		}
 		if !ok {
